@@ -66,6 +66,15 @@ def classify(f, du, dest):
                     pls.append(r["pl"])
                 if any(reads_err(p) for p in pls):
                     err_payload_read = True
+                    # `if let Err(e) = r { ..; return Err(e) }`: the payload ends up in the Err this function returns
+                    from ..flow import derived_locals
+                    der = derived_locals(f, {s["lhs"]["l"]})
+                    for bl in f.blocks:
+                        for st in bl["stmts"]:
+                            rr = st["rhs"]
+                            if st["lhs"]["l"] == 0 and not st["lhs"]["p"] and rr["rv"] == "agg" and rr.get("variant") == "Err" and \
+                                    any(o.get("pl") and o["pl"]["l"] in der for o in rr.get("ops", [])):
+                                tags.add("rethrown")
                 elif any(p["l"] == dest and not p["p"] for p in pls) and r["rv"] in ("use",):
                     # moved into another local: follow one step
                     sub = classify(f, du, s["lhs"]["l"]) if s["lhs"]["l"] != dest and not s["lhs"]["p"] else {"stored"}
